@@ -3,13 +3,13 @@
 package sm2
 
 import (
+	"time"
 	crand "crypto/rand"
 	"bytes"
 	"fmt"
 	"math/big"
 	"runtime"
 	"sync"
-	"sync/atomic"
 	"testing"
 
 	"github.com/bilibili/smgo/sm3"
@@ -125,8 +125,52 @@ func TestVerifC17SM2(t *testing.T) {
 		}
 		SignHashed(newScript(rc.stream), make([]byte, 32), rc.e) // invalid key: error path
 	}
+	// INDEPENDENT HASH VALUES, a phase of their own: nothing but sm3 runs inside the goroutines (messages and expected
+	// digests are prepared beforehand), so that no synchronisation inside the model or the standard library (math/big and
+	// fmt keep sync.Pools, which order goroutines for the race detector) stands between two hashes
+	{
+		type hm struct{ data, want []byte }
+		var msgs []hm
+		for res := 0; res < 64; res++ {
+			for blocks := 0; blocks < 3; blocks++ {
+				d := rng.Bytes(64*blocks + res)
+				msgs = append(msgs, hm{d, ref.SM3(d)})
+			}
+		}
+		var wg sync.WaitGroup
+		start := make(chan struct{})
+		nw := 16
+		bad := make([]int, nw)
+		for w := 0; w < nw; w++ {
+			wg.Add(1)
+			go func(w int) {
+				defer wg.Done()
+				<-start
+				x := uint32(w*2654435761 + 12345)
+				for it := 0; it < hk.N(1500, 15000); it++ {
+					x = x*1664525 + 1013904223
+					m := msgs[int(x>>8)%len(msgs)]
+					h := sm3.New()
+					h.Write(m.data[:len(m.data)/2])
+					h.Write(m.data[len(m.data)/2:])
+					one := sm3.SumSM3(m.data)
+					if !bytes.Equal(h.Sum(nil), m.want) || !bytes.Equal(one[:], m.want) {
+						bad[w]++
+					}
+				}
+			}(w)
+		}
+		close(start)
+		wg.Wait()
+		for w := range bad {
+			if bad[w] != 0 {
+				r.Violation("concurrent-result-differs-from-serial-result:sm3-independent-hash-values", hk.D{"goroutine": w, "wrong_digests": bad[w]})
+				break
+			}
+		}
+		r.EvalN("sm3|independent-hash-values|workers=16", nw*hk.N(1500, 15000))
+	}
 	var maxInflight, overlapped, total int64
-	var inflight int64
 	rounds := hk.N(2, 8)
 	for round := 0; round < rounds; round++ {
 		procs := []int{16, 4}[round%2]
@@ -135,25 +179,20 @@ func TestVerifC17SM2(t *testing.T) {
 		iters := hk.N(40, 150)
 		var wg sync.WaitGroup
 		start := make(chan struct{})
+		t0 := time.Now()
+		logs := make([]*hk.OverlapLog, workers)
 		for w := 0; w < workers; w++ {
 			wg.Add(1)
+			logs[w] = hk.NewOverlapLog(t0)
 			go func(w int) {
 				defer wg.Done()
 				lr := hk.NewRNG(hk.Seed(), fmt.Sprintf("c17sm2/%d/%d", round, w))
+				olog := logs[w]
 				<-start
 				for it := 0; it < iters; it++ {
 					sh := keys[lr.Intn(len(keys))]
 					kind := lr.Intn(11)
-					n := atomic.AddInt64(&inflight, 1)
-					if n > 1 {
-						atomic.AddInt64(&overlapped, 1)
-					}
-					for {
-						m := atomic.LoadInt64(&maxInflight)
-						if n <= m || atomic.CompareAndSwapInt64(&maxInflight, m, n) {
-							break
-						}
-					}
+					olog.Begin() // unsynchronised, see hk.OverlapLog
 					bad := ""
 					p, msg, isFault, _ := hk.Try(func() {
 						switch kind {
@@ -239,6 +278,10 @@ func TestVerifC17SM2(t *testing.T) {
 						default:
 							// independent hash values used concurrently
 							data := lr.Bytes(lr.Intn(300))
+							if lr.Intn(2) == 0 {
+								// lengths whose padding needs a second block (56..63 mod 64), different for every goroutine
+								data = lr.Bytes(64*lr.Intn(4) + 56 + lr.Intn(8))
+							}
 							h := sm3.New()
 							h.Write(data[:len(data)/2])
 							h.Write(data[len(data)/2:])
@@ -247,8 +290,7 @@ func TestVerifC17SM2(t *testing.T) {
 							}
 						}
 					})
-					atomic.AddInt64(&inflight, -1)
-					atomic.AddInt64(&total, 1)
+					olog.End()
 					if p && isFault {
 						r.Violation("concurrent-sm2-writes-to-shared-input", hk.D{"op": kind, "panic": msg})
 					} else if p {
@@ -264,6 +306,14 @@ func TestVerifC17SM2(t *testing.T) {
 		}
 		close(start)
 		wg.Wait()
+		{
+			o, ov, mx := hk.MergeOverlap(logs)
+			total += o
+			overlapped += ov
+			if mx > maxInflight {
+				maxInflight = mx
+			}
+		}
 		runtime.GOMAXPROCS(old)
 		r.EvalN(fmt.Sprintf("sm2|workers=%d|gomaxprocs=%d", workers, procs), workers*iters)
 	}
